@@ -289,6 +289,9 @@ K("O03.1", ["C03", "C04"], "gc", "c03_constructors_register", level="bounded", b
 V("O03.gc", ["C03", "C04", "C05"], "c03_collector", expect_verified=36,
   functions=["GC::new", "GC::maybe_trace", "GC::trace", "GC::untrace", "GC::destroy", "GC::run", "GC::reset_marks", "GC::sweep", "GC::mark", "<GC as Drop>::drop"],
   desc="the collector algorithm on its REAL text over an ABSTRACT heap (address, tag and array contents uninterpreted: every heap shape - nested, shared, cyclic - every number of objects and roots). mark: marks the object if managed, everything newly marked has all its managed elements marked, marks only grow, the managed list is untouched, terminates on cycles (measure: unset bits). run: after the mark phase every object reachable from a root through managed arrays is marked (induction on the path length, lemma_reachable_is_marked); sweep hands to `free` ONLY unmarked objects, each removed from the list as it is freed (free REQUIRES the caller's permission may_free, which run's precondition grants for unreachable managed objects only), keeps every marked one, and leaves the list duplicate-free; so every reachable managed object is still managed after run and nothing is released twice. PRECISION: whatever mark marks is reachable from its argument, so after run every object still managed is one that is reachable from the roots (managed' = managed /\\ reachable). untrace only removes entries and terminates on cyclic arrays; maybe_trace never registers twice; destroy releases everything. Bitmap index arithmetic and swap_remove bookkeeping proved (no out-of-bounds panic).")
+V("O04.release", ["C04", "C05"], "c04_release", expect_verified=8,
+  functions=["Object::free_recursive", "Object::collect_graph"],
+  desc="how the caller releases a result (real text over the abstract heap of O03.gc): collect_graph lists the object and every heap object reachable from it, each address once, and nothing that is not reachable; free_recursive passes to `free` exactly the listed objects: every reachable object (nothing remains), each once (shared elements and cycles included: the list is duplicate-free), and only objects the caller gave the permission for (reachable ones). Termination is not proved (the abstract heap does not say that a result graph is finite)")
 # O03.2 (c03_run_universe3) and O04.3 (c04_untrace_result) are written in contracts/kani/gc.rs but NOT registered:
 # CBMC does not finish symbolic execution of GC::run / sweep / destroy (bitvec::BitVec resize / iter_zeros) within
 # 800 s even for a universe of three objects and a concrete root set (measured). The collector algorithm is decided
@@ -365,11 +368,11 @@ PROPERTIES = {
     },
     "C04": {
         "level": "proof",
-        "claim": "PARTIAL: the collector's half. Proved (Verus unit c03_collector, real text of impl GC over an abstract heap - every heap shape, every number of objects and roots): after EVERY collection the collector manages exactly the previously managed objects that are reachable from the roots (run: reachable => kept, and kept => reachable: mark marks nothing that is not reachable from its argument; sweep keeps only marked objects), every other managed object has been passed to `free` exactly once and removed from the managed list in the same step (the list is duplicate-free, so no second release); destroy and Drop for GC (real text of `drop`) leave nothing managed and release every managed object once; untrace only removes the result's graph from the managed list (hand-over to the caller, nothing freed, terminates on cyclic results); maybe_trace never registers an object twice. Proved (Verus, real VM::run): the per-run collector swap puts the machine's collector back on every exit path, error paths included. Checked (Kani, bounded): Halt untraces the result before handing it out; every heap constructor registers its result exactly once.",
+        "claim": "PARTIAL: the collector's half. Proved (Verus unit c03_collector, real text of impl GC over an abstract heap - every heap shape, every number of objects and roots): after EVERY collection the collector manages exactly the previously managed objects that are reachable from the roots (run: reachable => kept, and kept => reachable: mark marks nothing that is not reachable from its argument; sweep keeps only marked objects), every other managed object has been passed to `free` exactly once and removed from the managed list in the same step (the list is duplicate-free, so no second release); destroy and Drop for GC (real text of `drop`) leave nothing managed and release every managed object once; untrace only removes the result's graph from the managed list (hand-over to the caller, nothing freed, terminates on cyclic results); maybe_trace never registers an object twice. Proved (Verus, real VM::run): the per-run collector swap puts the machine's collector back on every exit path, error paths included. Proved (Verus unit c04_release, real text of Object::free_recursive / collect_graph over the same abstract heap): the caller's release of a result graph frees EVERY heap object reachable from the result (however nested), EACH exactly once (shared elements and cycles included) and nothing else - after fix d19fc0f; the pinned function leaked below the first level and double-freed shared elements. Checked (Kani, bounded): Halt untraces the result before handing it out; every heap constructor registers its result exactly once.",
         "note": "NOT decided: the ledger claim as a whole - that every object a run allocated is released exactly once on every exit path (normal, or an error after k instructions for every k) and that the result graph can be released by the caller with nothing remaining. That composes Drop for GC, the `?` exit paths of VM::run_code, the compiler's hand-over of constants (untrace -> maybe_trace) and the raw allocator over a whole run; no contract in reach states it. The heap itself (`as_vec_unchecked`, `free`) and bitvec are under assumed contracts (see C03).",
         "design_ref": "DESIGN.md 3.9",
-        "undecided": ["every allocation of a run is released exactly once on every exit path (whole-run ledger, crash points)", "the result graph stays valid after the interpreter is gone and can be released once (free_recursive on shared / cyclic results)", "constants handed from the compiler's collector to the machine's (untrace, then maybe_trace) across a session", "that nobody else refers to a managed object when its collector is dropped (the precondition of Drop for GC)"],
-        "assumptions": ["bitvec::BitVec operations behave as documented (dependency)", "Iterator::position / any over the managed list (std)", "one word per heap address (heap typing)", "Object::as_vec_unchecked reads the array's elements, Object::free releases exactly that allocation (unsafe code)"],
+        "undecided": ["every allocation of a run is released exactly once on every exit path (whole-run ledger, crash points)", "the result graph stays valid after the interpreter is gone (that nothing else still owns or refers to what Halt hands out: retained sessions hand out objects a global or the compiler's constants still refer to - DESIGN.md 4)", "termination of free_recursive / collect_graph (the abstract heap does not say a result graph is finite)", "constants handed from the compiler's collector to the machine's (untrace, then maybe_trace) across a session", "that nobody else refers to a managed object when its collector is dropped (the precondition of Drop for GC)"],
+        "assumptions": ["bitvec::BitVec operations behave as documented (dependency)", "Iterator::position / any over the managed list (std)", "one word per heap address (heap typing)", "Object::as_vec_unchecked reads the array's elements, Object::free releases exactly that allocation (unsafe code)", "free_recursive / collect_graph terminate (exec_allows_no_decreases_clause: a result graph is finite)"],
     },
     "C05": {
         "level": "proof",
